@@ -1,90 +1,90 @@
-/-! Spike for C09: the four clauses of the statement as Lean propositions, a model of the current
-    `config.Validate`, and kernel-checked witnesses that the current code violates R2 and A1. -/
-namespace Val
+/-! Model of `config.Validate` (generator/config/config.go) and the statement of C09.
+
+`Validate` looks only at attribute *types*.  The subject is given in written order (the Go code
+stores it reversed and walks it backwards); an attribute name the code cannot resolve to an OID
+(`GetRdnAttributeOid` and `OidFromString` both fail) has `ty = none`. -/
+namespace Validate
+
+abbrev Oid := List Nat
 
 structure Attr where
-  ty : Nat          -- resolved attribute OID (short name or custom OID), abstract
+  ty : Option Oid       -- resolved attribute OID (short name or dotted OID); `none` = unresolvable
   optional : Bool
 deriving DecidableEq, Repr
 
-/-- `Validate`'s two-pointer walk (subject already in written order), `none` = no attribute list -/
-def walk (allowOther : Bool) : List Attr → List Nat → Option (List Nat)   -- returns the unread rest of the subject
+/-- first loop of `Validate`: every attribute that is not optional must occur in the subject -/
+def requiredPresent : List Attr → List Oid → Bool
+  | [], _ => true
+  | a :: as, subj =>
+    match a.ty with
+    | none => if a.optional then requiredPresent as subj else false
+    | some t => if !a.optional && !subj.contains t then false else requiredPresent as subj
+
+/-- second loop: greedy in-order matching of the subject against the profile's list -/
+def inOrder : List Oid → List Attr → Bool
+  | [], _ => true
+  | _ :: _, [] => false
+  | h :: hs, w :: ws => if w.ty = some h then inOrder hs ws else inOrder (h :: hs) ws
+
+/-- `Validate`: `none` = the profile has no attribute list -/
+def validate (attrs : Option (List Attr)) (allowOther : Bool) (subj : List Oid) : Bool :=
+  match attrs with
+  | none => true
+  | some as => requiredPresent as subj && (allowOther || inOrder subj as)
+
+/-! ### the statement of C09 -/
+
+/-- the profile's attribute list as seen by a subject: unresolvable names never match -/
+def types (as : List Attr) : List (Option Oid) := as.map (·.ty)
+
+/-- R1: with `allowOther = false` the subject's types must be an in-order subsequence of the list -/
+def R1 (as : List Attr) (allowOther : Bool) (subj : List Oid) : Prop :=
+  allowOther = false ∧ ¬ List.Sublist (subj.map some) (types as)
+
+/-- R2: some non-optional profile attribute is missing from the subject -/
+def R2 (as : List Attr) (subj : List Oid) : Prop :=
+  ∃ a ∈ as, a.optional = false ∧ ∀ t, a.ty = some t → t ∉ subj
+
+/-- A1: the subject lists the profile's attributes in order, omitting only optional ones -/
+inductive A1 : List Attr → List Oid → Prop
+  | nil : A1 [] []
+  | keep {a as s t} : a.ty = some t → A1 as s → A1 (a :: as) (t :: s)
+  | skip {a as s} : a.optional = true → A1 as s → A1 (a :: as) s
+
+structure Spec (v : Option (List Attr) → Bool → List Oid → Bool) : Prop where
+  a2 : ∀ allowOther subj, v none allowOther subj = true
+  r1 : ∀ as allowOther subj, R1 as allowOther subj → v (some as) allowOther subj = false
+  r2 : ∀ as allowOther subj, R2 as subj → v (some as) allowOther subj = false
+  a1 : ∀ as allowOther subj, A1 as subj → v (some as) allowOther subj = true
+
+/-- decidable rendering of the statement, evaluated by the driver on the implementation's verdict:
+    `some b` = the statement fixes the verdict, `none` = the statement is silent -/
+def specVerdict (attrs : Option (List Attr)) (allowOther : Bool) (subj : List Oid) : Option Bool :=
+  match attrs with
+  | none => some true
+  | some as =>
+    let missing := as.any (fun a => !a.optional && (match a.ty with | none => true | some t => !subj.contains t))
+    if missing then some false
+    else if !allowOther then some (inOrder subj as)      -- subsequence ↔ accepted (R1 / A1)
+    else none                                            -- allowOther, nothing missing: not constrained by R1/R2; A1 ⊆ accept
+
+/-! ### the model before the repair of `Validate` (kept as a regression witness) -/
+
+/-- the two-pointer walk of the original code, which never reads `optional` -/
+def walkOld (allowOther : Bool) : List Attr → List Oid → Option (List Oid)
   | [], subj => some subj
   | _ :: _, [] => some []
   | w :: ws, h :: hs =>
-    if w.ty = h then walk allowOther ws hs
-    else if allowOther then walk allowOther (w :: ws) hs
+    if w.ty = some h then walkOld allowOther ws hs
+    else if allowOther then walkOld allowOther (w :: ws) hs
     else none
 
-def validate (attrs : Option (List Attr)) (allowOther : Bool) (subj : List Nat) : Bool :=
+def validateOld (attrs : Option (List Attr)) (allowOther : Bool) (subj : List Oid) : Bool :=
   match attrs with
   | none => true
   | some as =>
-    match walk allowOther as subj with
+    match walkOld allowOther as subj with
     | none => false
-    | some rest => !( !rest.isEmpty && !allowOther)      -- `haveAttribute < len(subject) && !allowOther`
+    | some rest => !( !rest.isEmpty && !allowOther)
 
-/-! ### the statement -/
-def R1 (as : List Attr) (allowOther : Bool) (subj : List Nat) : Prop :=
-  allowOther = false ∧ ¬ List.Sublist subj (as.map (·.ty))
-def R2 (as : List Attr) (subj : List Nat) : Prop := ∃ a ∈ as, a.optional = false ∧ a.ty ∉ subj
-/-- the subject lists the profile's attributes in order, omitting only optional ones -/
-inductive A1 : List Attr → List Nat → Prop
-  | nil : A1 [] []
-  | keep {a as s} : A1 as s → A1 (a :: as) (a.ty :: s)
-  | skip {a as s} : a.optional = true → A1 as s → A1 (a :: as) s
-
-def Spec (v : Option (List Attr) → Bool → List Nat → Bool) : Prop :=
-  (∀ allowOther subj, v none allowOther subj = true) ∧                                    -- A2
-  (∀ as allowOther subj, R1 as allowOther subj → v (some as) allowOther subj = false) ∧
-  (∀ as allowOther subj, R2 as subj → v (some as) allowOther subj = false) ∧
-  (∀ as allowOther subj, A1 as subj → v (some as) allowOther subj = true)
-
-/-! ### what holds of the current code, and what does not -/
-theorem A2_holds : ∀ allowOther subj, validate none allowOther subj = true := by intros; rfl
-
-/-- profile [C, O (optional), CN]; C=0, O=1, CN=2 -/
-def prof : List Attr := [⟨0, false⟩, ⟨1, true⟩, ⟨2, false⟩]
-
-/-- R2 violated: subject `C=…` lacks the required CN and is accepted -/
-theorem R2_witness : R2 prof [0] ∧ validate (some prof) false [0] = true :=
-  ⟨⟨⟨2, false⟩, by decide, rfl, by decide⟩, by decide⟩
-
-/-- A1 violated: subject `C=…, CN=…` omits only the optional O and is rejected -/
-theorem A1_witness : A1 prof [0, 2] ∧ validate (some prof) false [0, 2] = false :=
-  ⟨A1.keep (A1.skip rfl (A1.keep A1.nil)), by decide⟩
-
-theorem current_code_violates_C09 : ¬ Spec validate := by
-  intro ⟨_, _, h3, _⟩
-  have := h3 prof false [0] R2_witness.1
-  rw [R2_witness.2] at this
-  exact Bool.noConfusion this
-
-
-/-- with `allowOther = false` the walk only ever consumes a common prefix -/
-theorem walk_false_prefix : ∀ (as : List Attr) (subj rest : List Nat),
-    walk false as subj = some rest → rest = [] → List.Sublist subj (as.map (·.ty))
-  | [], subj, rest, h, hr => by simp [walk] at h; subst h; subst hr; exact List.Sublist.refl _
-  | _ :: _, [], _, _, _ => List.nil_sublist _
-  | w :: ws, x :: hs, rest, h, hr => by
-    simp only [walk] at h
-    split at h
-    · rename_i heq
-      have := walk_false_prefix ws hs rest h hr
-      simp only [List.map_cons, heq]
-      exact List.Sublist.cons₂ _ this
-    · simp at h
-
-/-- R1 does hold of the current code (kept as the `…_partial` theorem of C09) -/
-theorem R1_holds (as : List Attr) (allowOther : Bool) (subj : List Nat) (h : R1 as allowOther subj) :
-    validate (some as) allowOther subj = false := by
-  obtain ⟨ha, hns⟩ := h
-  subst ha
-  cases hw : walk false as subj with
-  | none => simp [validate, hw]
-  | some rest =>
-    cases rest with
-    | nil => exact absurd (walk_false_prefix as subj [] hw rfl) hns
-    | cons r rs => simp [validate, hw]
-
-end Val
+end Validate
